@@ -39,6 +39,7 @@ def cfg(p):
   Channels <- cChannels
   MaxDepth = {p['maxdepth']}
   MaxSubs = {p['maxsubs']}
+  MaxReloads = {p.get('maxreloads', 1)}
 INIT Init
 NEXT Next
 VIEW View
@@ -287,12 +288,26 @@ def run(focus, tier, seed):
         for i in range(0, len(tabs), chunk):
             pp = {k: v for k, v in p.items() if k != "tables"}
             jobs.append(dict(module=mc_module(p, tabs[i:i + chunk]), cfg=cfg(p), workers=1, timeout=3000, params=pp, tag=const))
+    # deeper histories than the exhaustive bound reaches: TLC simulation schedules over the same spec
+    nsim = 0
+    for p in profiles(tier, seed, focus in ("C05", "C14", "C19")):
+        if focus in FOCUS_FILTER and not FOCUS_FILTER[focus](p):
+            continue
+        ps = dict(p, maxdepth=16, maxsubs=6, maxreloads=2)
+        const = {k: v for k, v in ps.items() if k != "tables"}
+        const["tables"] = len(ps["tables"])
+        const["mode"] = "simulate"
+        pp = {k: v for k, v in ps.items() if k != "tables"}
+        jobs.append(dict(module=mc_module(ps, ps["tables"]), cfg=cfg(ps), workers=1, timeout=3000, params=pp, tag=const,
+                         simulate=(60 if tier == "quick" else 600), depth=16, seed=seed + 17 + nsim))
+        nsim += 1
+    total.exhaustive = False
     t, rs = s2c.run_s2c(MOD, focus, jobs, tlc_parallel=10)
     total.merge(t)
     agg = {}
     for job, r in zip(jobs, rs):
         const = job["tag"]
-        a = agg.setdefault(repr(const), {"spec": "ExpandingBloom", "constants": const, "mode": "exhaustive+emit", "generated": 0, "distinct": 0, "depth": 0, "wall_s": 0, "ok": True})
+        a = agg.setdefault(repr(const), {"spec": "ExpandingBloom", "constants": const, "mode": const.get("mode", "exhaustive+emit"), "generated": 0, "distinct": 0, "depth": 0, "wall_s": 0, "ok": True})
         a["generated"] += r.generated
         a["distinct"] += r.distinct
         a["depth"] = max(a["depth"], r.depth)
